@@ -117,4 +117,14 @@ theorem recovery_hitmax_closes (m : Nat) (acts : List Recovery.Act) (s : Recover
     (0 < s.hitmaxExits → s.closedSig = true ∧ s.onCloseCalls = 1) :=
   Recovery.hitmax_closes m acts s h
 
+
+/-- T2 structure facts: `isAuthExpired` (10 s margin, `>= 0`), `auth` (no token getter → nothing to do; fresh token; AUTH request under the auth timeout and the background context; session stored on success) and the option setters the recovery reads -/
+theorem auth_source :
+    Gen.stmts_client_isAuthExpired = ["info := c.AuthInfo()", "if info == nil { return true }", "expireAt := time.Unix(info.GetExpires()/1000-10, info.GetExpires()%1000*int64(time.Millisecond))", "return time.Since(expireAt) >= 0"] ∧
+    Gen.stmts_client_auth = ["if c.dialOptions.AuthTokenGetter == nil { return nil }", "token, err := c.dialOptions.AuthTokenGetter()", "if err != nil { return err }", "res, err := c.Do(context.Background(), &Request{ Cmd: uint32(control.Command_CMD_AUTH), Body: &control.AuthRequest{Token: token, Metadata: c.connectMetadata}, }, RequestTimeout(c.dialOptions.AuthTimeout))", "if err != nil { return errors.Wrap(err, \"do auth\") }", "var info control.AuthResponse", "if err = res.Unmarshal(&info); err != nil { return errors.Wrap(err, \"auth unmarshal res\") }", "c.setAuthInfo(&info)", "return nil"] ∧
+    Gen.stmts_opt_MaxReconnect = ["return func(o *DialOptions) { if i > 0 { o.MaxReconnect = i } }"] ∧
+    Gen.stmts_opt_AuthTimeout = ["return func(o *DialOptions) { if d > 0 { o.AuthTimeout = d } }"] ∧
+    Gen.stmts_opt_DialTimeout = ["return func(o *DialOptions) { if d > 0 { o.Timeout = d } }"] :=
+  ⟨rfl, rfl, rfl, rfl, rfl⟩
+
 end OAP.C08
